@@ -145,6 +145,10 @@ func main() {
 	_ = os.MkdirAll(worldRoot, 0o755)
 	defer os.RemoveAll(worldRoot)
 
+	if f.Part == "wake" {
+		runWake(f, rep)
+		return
+	}
 	all := append(configs(false), configs(true)...)
 	if f.Replay != "" {
 		var r replay
